@@ -67,11 +67,14 @@ theorem C13_one_place (cfg : Cfg) (hc : 0 < cfg.cacheMax) (ops : List Op)
   rw [← List.count_pos_iff]
   omega
 
-/-- **Never silently lost — what holds for the code as it is.** Every id ever accepted is still
+/-- **Never silently lost — what holds for both the pinned and the repaired code** (any value of
+    `cfg.reportFailedMoves`). Every id ever accepted is still
     tracked, or has a reason in the removal cache, or was taken out of the removal cache by the
     caller since it was last accepted, or was pushed out of the removal cache by its size bound
     (which only happens once 50 000 removals were recorded), or was *dropped*: un-tracked by a
-    promotion/demotion that failed inside `run_maintenance` — see the counterexample below.
+    promotion/demotion that failed inside `run_maintenance` — possible only in the pinned code
+    (finding F13, counterexample below); the repaired code (/repo commit 8c2d14f) never drops,
+    see `C13_no_silent_loss_fixed`.
     A removed id that still has its cache entry is reported as `Removed(reason)`. -/
 theorem C13_no_silent_loss_partial (cfg : Cfg) (hc : 0 < cfg.cacheMax) (ops : List Op)
     (hv : ValidSeq (init cfg) ops) :
@@ -100,12 +103,14 @@ theorem C13_no_silent_loss_partial (cfg : Cfg) (hc : 0 < cfg.cacheMax) (ops : Li
         have := hl e he
         simp [hei] at this
 
-/-- **The code as it is does lose a transaction silently.** Parked container at its limit of 1
+/-- **The pinned code (before /repo commit 8c2d14f, `reportFailedMoves := false`, finding F13)
+    did lose a transaction silently** — kept as the regression witness. Parked container at its limit of 1
     (account 0, nonce 1); account 1 has a ready transaction of cost 5; its balance drops to 1;
     `run_maintenance` demotes it, `parked.add` refuses (container full), and the id is un-tracked
     without a removal-cache entry: `transaction_status` answers `None`.
     (Same for the per-account limit of 15 and for a nonce already parked; corpus/mempool.ops
-    reproduces all three on the real `Mempool`.) -/
+    sessions A–C reproduced all three on the real pinned `Mempool`; on the repaired code the same
+    sessions end with `Removed(InternalError)`.) -/
 theorem C13_no_silent_loss_counterexample :
     ∃ (ops : List Op), C13_validB (init { parkedMax := 1 }) ops = true ∧
       let s := run (init { parkedMax := 1 }) ops
@@ -122,10 +127,12 @@ theorem C13_no_silent_loss_counterexample :
   · decide
   · decide
 
-/-- **Never silently lost — with the proposed fix** (`proposed_fixes/C13.diff`: a failed
-    promotion/demotion in `run_maintenance` records `RemovalReason::InternalError`, as `insert`
-    already does): every accepted id is tracked, or has a removal reason, or was acknowledged by
-    the caller, or fell out of the removal cache at its size bound. -/
+/-- **Never silently lost — the code as it is now** (/repo commit 8c2d14f =
+    `proposed_fixes/C13.diff`: a failed promotion/demotion in `run_maintenance` records
+    `RemovalReason::InternalError`, as `insert` already did; `reportFailedMoves := true`, the
+    configuration the check's driver runs the model with): every accepted id is tracked, or has a
+    removal reason, or was acknowledged by the caller, or fell out of the removal cache at its
+    size bound. -/
 theorem C13_no_silent_loss_fixed (cfg : Cfg) (hc : 0 < cfg.cacheMax)
     (hfix : cfg.reportFailedMoves = true) (ops : List Op) (hv : ValidSeq (init cfg) ops) :
     let s := run (init cfg) ops
@@ -169,8 +176,9 @@ theorem C13_no_silent_loss_fixed (cfg : Cfg) (hc : 0 < cfg.cacheMax)
   · rw [hd] at h1; cases h1
   · exact Or.inr (Or.inr (Or.inr h1))
 
-/-- **Only a failed demotion can drop an id.** The other branch of `run_maintenance` that
-    un-tracks an id without a reason — "failed to promote transaction during maintenance" — is
+/-- **Only a failed demotion could drop an id (pinned code); the promotion branch never fails
+    (pinned and repaired code).** The other branch of `run_maintenance` that
+    un-tracked an id without a reason — "failed to promote transaction during maintenance" — is
     dead: in every reachable state (indeed in every state with ordered containers whose ready
     queues are covered, which includes the states in the middle of a maintenance run), when an
     account has nothing to demote, its maintenance step drops nothing, whatever the chain state,
